@@ -66,6 +66,7 @@ class SpecLib:
         self.reals = []
         self.rec_specs = {}
         self._pattern_ids = {}
+        self._slice_fns = {}
         self._patterns = {}
         self.regex_facts = []
         self._install()
@@ -245,17 +246,34 @@ class SpecLib:
     def setslice(self, ex, obj, lo, hi, v):
         if not (isinstance(obj, VBox) and obj.kind == "list"):
             raise Unsupported("slice store on %r" % (obj,))
-        self.use("list.__setitem__(slice)")
+        self.use("list.__setitem__(slice): ls[a:b] = xs is ls[:a'] + xs + ls[max(a',b'):] with Python's clamping")
         s = obj.val
-        n = s.length()
-        l = self.clamp(lo, n, z3.IntVal(0))
-        h = self.clamp(hi, n, n)
-        h = z3.If(h < l, l, h)
         new = self.seqval(v)
         if not isinstance(new, VSeq):
             raise Unsupported("slice store of %r" % (v,))
-        t = s.t
-        obj.val = VSeq("list", s.ety, z3.Concat(z3.SubSeq(t, 0, l), new.t, z3.SubSeq(t, h, n - h)))
+        s, new = _coerce_empty_seq(s, new)
+        if lo is NONE or hi is NONE or isinstance(lo, VOpt) or isinstance(hi, VOpt):
+            raise Unsupported("slice store with an omitted bound")
+        srt = sort_of(("list", s.ety))
+        F = self._slice_assign_fn(srt)
+        a, b = unwrap("int", lo), unwrap("int", hi)
+        app = F(s.t, a, b, new.t)
+        # definitional axiom (opaque application + its meaning): keeps code-side and spec-side
+        # terms syntactically equal, the concatenation is only unfolded where content matters
+        n = z3.Length(s.t)
+        cl = lambda t: z3.If(t < 0, z3.If(t + n < 0, 0, t + n), z3.If(t > n, n, t))
+        l, h = cl(a), cl(b)
+        h = z3.If(h < l, l, h)
+        ex.define(app == z3.Concat(z3.SubSeq(s.t, 0, l), new.t, z3.SubSeq(s.t, h, n - h)),
+                  key=("slice-assign", app.get_id()))
+        ex._keep.append(app)
+        obj.val = VSeq("list", s.ety, app)
+
+    def _slice_assign_fn(self, srt):
+        key = str(srt)
+        if key not in self._slice_fns:
+            self._slice_fns[key] = z3.Function("py_slice_assign_%d" % len(self._slice_fns), srt, I, I, srt, srt)
+        return self._slice_fns[key]
 
     def delitem(self, ex, obj, key):
         if isinstance(obj, VBox) and obj.kind == "dict":
@@ -518,7 +536,7 @@ class SpecLib:
         def b_len(ex, a, kw):
             v = a[0]
             if isinstance(v, VOpt):
-                if ex.branch(v.isnone):
+                if not ex.spec_mode and ex.branch(v.isnone):
                     ex.raise_(TypeError)
                 v = v.val
             if isinstance(v, VTuple):
@@ -534,7 +552,7 @@ class SpecLib:
         def b_int(ex, a, kw):
             v = a[0]
             if isinstance(v, VOpt):
-                if ex.branch(v.isnone):
+                if not ex.spec_mode and ex.branch(v.isnone):     # specifications are total
                     ex.raise_(TypeError)
                 v = v.val
             if isinstance(v, VInt):
@@ -642,6 +660,17 @@ class SpecLib:
             data = VSeq("bytes", "int", F_FILEDATA(name.t))
             return VObj("BinaryIO", {"data": data, "pos": VInt(0), "closed": VBool(False)}, fresh_name("fp"))
         B_["open"] = b_open
+
+        # ---- sequence laws usable as hints in contract text (each instance is proved separately)
+        def law_slice_extend(ex, a, kw):
+            """s[a:j] + [s[j]] == s[a:j+1]   for 0 <= a <= j < len(s)"""
+            s_, lo, j = self.seqval(a[0]), unwrap("int", a[1]), unwrap("int", a[2])
+            t = s_.t
+            f = z3.Implies(z3.And(0 <= lo, lo <= j, j < z3.Length(t)),
+                           z3.Concat(z3.SubSeq(t, lo, j - lo), z3.Unit(t[j])) == z3.SubSeq(t, lo, j + 1 - lo))
+            ex.lemma("law slice-extend: s[a:j] + [s[j]] == s[a:j+1]", f)
+            return VBool(True)
+        B_["law_slice_extend"] = law_slice_extend
 
         # ---- list methods
         def l_append(ex, a, kw):
@@ -884,6 +913,11 @@ class SpecLib:
                 return z3.BoolVal(v.cls == k.name or (mod is not None and mod.is_subclass(v.cls, k.name)))
             return z3.BoolVal(False)
         raise Unsupported("isinstance(%r, %r)" % (v, k))
+
+
+def _coerce_empty_seq(a, b):
+    from vf.pyvc.interp import _coerce_empty
+    return _coerce_empty(a, b)
 
 
 def VExc_types():
